@@ -595,8 +595,34 @@ pub fn c05(rng: &mut Rng, thorough: bool, idx: u64) -> Spec {
         after.pools[0].users[0].pool_size += 1;
         let t = rng.range(40, 250);
         actions.push(ActionSpec { at: When::AtMs { ms: t }, act: Action::SetFile { kind: "data".into(), content: after.render() } });
-        let a = admin_client(500, "main", When::AtMs { ms: t + rng.range(2, 30) }, &["RELOAD"]);
+        let mut a = admin_client(500, "main", When::AtMs { ms: t + rng.range(2, 30) }, &["RELOAD"]);
+        let last = a.steps.len() - 1;
+        a.steps.insert(last, Step::Emit { ev: "reloaded".into() });
         clients.push(a);
+        // every client is connected before the reload and goes on (between two transactions) after it
+        for c in clients.iter_mut().filter(|c| c.role != "admin") {
+            // a position between transactions: after a step that is not inside BEGIN..COMMIT
+            let mut depth = 0i32;
+            let mut cut = None;
+            for (i, st) in c.steps.iter().enumerate() {
+                if let Step::Send { msgs, .. } = st {
+                    if let Some(FrontMsg::Q { sql }) = msgs.first() {
+                        let up = sql.trim_start().to_ascii_uppercase();
+                        if up.starts_with("BEGIN") || up.starts_with("START TRANSACTION") {
+                            depth += 1;
+                        } else if up.starts_with("COMMIT") || up.starts_with("ROLLBACK") || up.starts_with("END") {
+                            depth = 0;
+                        }
+                    }
+                }
+                if depth == 0 && i >= 1 && cut.is_none() && rng.chance(0.4) {
+                    cut = Some(i + 1);
+                }
+            }
+            if let Some(i) = cut {
+                c.steps.insert(i, Step::Wait { ev: "reloaded".into() });
+            }
+        }
     }
     if outage != "none" {
         for h in hosts.iter().filter(|h| (outage == "replicas_down") == (h.role == "replica")) {
